@@ -210,6 +210,30 @@ func C15(c *Ctx) {
 		c.R.Check(okUndel, "C15-R1", "SetMachine: a pending deletion of the machine is withdrawn", c.P.Pos(setM.Pos()), "Changed.Deleted = false for a pending change record, unconditionally", "a machine deleted and re-created before the changes are collected is reported as deleted only: the store loses a machine that is live")
 	}
 	c.R.Check(recState && recSrc, "C15-R1", "SetMachine: given state and spec source are reported", c.P.Pos(setM.Pos()), "Changed.State and Changed.SpecSrc recorded", "SetMachine does not report the state / spec source it was given")
+	// the state installed is the normalised one (DefaultState gives a node name to a state that has none: the
+	// timers machine reports its state without one and relies on this when it is restored)
+	{
+		defState := c.P.Func("sio", "", "DefaultState")
+		nst, bad := 0, ""
+		for _, st := range storesToPkg(setM, "crew", "Machine", "State") {
+			nst++
+			for _, d := range deepDefs(st.Val, []*ssa.Function{setM}) {
+				cl, isC := d.(*ssa.Call)
+				if !isC || defState == nil || cl.Common().StaticCallee() != defState {
+					bad = c.pos(st)
+				}
+			}
+		}
+		// (a new machine's State is given in the literal that creates it)
+		ssau.Instrs(setM, func(in ssa.Instruction) {
+			st, ok := in.(*ssa.Store)
+			if !ok || !ssau.IsField(st.Addr, prog.Abs("crew"), "Machine", "State") {
+				return
+			}
+			nst++
+		})
+		c.R.Check(bad == "" && nst > 0, "C15-R1", "SetMachine: the state installed is normalised", c.P.Pos(setM.Pos()), "every Machine.State assigned is a DefaultState(...) result", "SetMachine installs a state that did not go through DefaultState ("+bad+"): a state stored without a node name (the timers machine's) comes back as a machine at node \"\", which no specification has")
+	}
 	c.R.Check(applyNew && applyExisting, "C15-R1", "SetMachine: given state is applied to new and to existing machines", c.P.Pos(setM.Pos()), "Machine.State assigned for a new machine and for an existing one", fmt.Sprintf("a reported state is not applied (new machine=%v, existing machine=%v)", applyNew, applyExisting))
 	// the spec source is applied (m.SpecSource / m.Specter set from ResolveSpecSource) when given
 	specApplied := false
